@@ -153,9 +153,9 @@ theorem held_reverse (l : AL κ ν) (o : Obj κ ν) : (held l.reverse).count o =
   | nil => rfl
   | cons a t ih => simp only [List.reverse_cons, held_append, held_cons, held_nil, List.count_append, ih, List.append_nil]; omega
 
-theorem purge_count (c : RawLru κ ν) (o : Obj κ ν) :
-    ∃ c' e, c.purge = .ok (c', e) ∧ c'.items = [] ∧ (held c.items).count o = e.drops.count o := by
-  refine ⟨_, _, purge_spec c, rfl, ?_⟩
+theorem purge_count (c : RawLru κ ν) :
+    ∃ c' e, c.purge = .ok (c', e) ∧ c'.items = [] ∧ ∀ o : Obj κ ν, (held c.items).count o = e.drops.count o := by
+  refine ⟨_, _, purge_spec c, rfl, fun o => ?_⟩
   have : (goneEff c c.items.reverse).drops = held c.items.reverse := rfl
   rw [this, held_reverse]
 
